@@ -646,9 +646,39 @@ pub fn library() -> &'static Vec<Pkg> {
                 is_component: true,
             });
         }
+        // derived: a library component with one stored bit flipped that stays valid but becomes
+        // unusual (found by the single-fault enumeration); kept only if it still validates
+        for (name, base, offset, bit) in DERIVED {
+            if let Some(b) = v.iter().find(|p: &&Pkg| p.name == *base).map(|p| p.bytes.clone()) {
+                let mut bytes = b;
+                if *offset < bytes.len() {
+                    bytes[*offset] ^= 1 << bit;
+                    let valid = wasmparser::Validator::new_with_features(wasmparser::WasmFeatures::all())
+                        .validate_all(&bytes)
+                        .is_ok();
+                    if valid {
+                        let (imports, exports) = names_of(&bytes);
+                        v.push(Pkg {
+                            name,
+                            version: None,
+                            bytes,
+                            imports,
+                            exports,
+                            is_component: true,
+                        });
+                    }
+                }
+            }
+        }
         v
     })
 }
+
+/// (new name, base component, byte offset, bit)
+const DERIVED: &[(&str, &str, usize, u8)] = &[
+    // the core module type's func export becomes an exact func entity
+    ("odd:exact-func", "odd:core-module", 64, 5),
+];
 
 pub fn describe() -> String {
     let mut s = String::new();
